@@ -1417,6 +1417,93 @@ Proof.
   apply c17_fin_after_data_ok_step_open; assumption.
 Qed.
 
+(* ================================================================== the monitored bound is an invariant *)
+Lemma LB_seg_bounds (s : vsock) : LB 0 s -> c17_seg_bounds (fp_of_vsock cci s) = true.
+Proof.
+  intros (A & _ & _ & D). unfold c17_seg_bounds. cbn [fp_of_vsock f_seg_len_bytes f_tx_len].
+  pose proof (seg_len_nonneg _ A). apply andb_true_intro. split; apply Z.leb_le; lia.
+Qed.
+
+Lemma LB_vstep_state (s : vsock) o : LB 0 s -> LB 0 (vstep_state cci s o).
+Proof. intro H. unfold vstep_state. apply vstep_LB. exact H. Qed.
+
+Theorem c17_seg_bounds_step : forall (s : vsock) o,
+  LB 0 s -> c17_seg_bounds (fs_post (fstep_of cci s o)) = true.
+Proof.
+  intros s o H. pose proof (LB_vstep_state s o H) as K. unfold fstep_of, vstep_state in *.
+  destruct (vstep cci s o) as [[[s' out] dw] sw]. cbn [fs_post fst] in *. apply LB_seg_bounds. exact K.
+Qed.
+
+Theorem c17_seg_bounds_trace : forall mk cfg (s0 : vsock) ops,
+  C10_Pred.vconfig_ok cfg = true -> vsock_new cci mk cfg = Some s0 ->
+  forallb (fun st => c17_seg_bounds (fs_post st)) (ftrace cci s0 ops) = true.
+Proof.
+  intros mk cfg s0 ops Hc Hn. apply (ftrace_forallb cci (LB 0)).
+  - intros s o H. apply c17_seg_bounds_step. exact H.
+  - apply LB_vstep_state.
+  - eapply vsock_new_LB; eauto.
+Qed.
+
+(* c17_fin_after_data_ok without the monitored bound: it holds of every step of every connection built
+   from a valid configuration unless the channel was closed AND the poll reports a transport error *)
+Theorem c17_fin_after_data_ok_step_inv : forall cfg (s : vsock) o,
+  LB 0 s ->
+  v_inbox_closed s = false \/ c17_not_err_send (fs_result (fstep_of cci s o)) = true ->
+  c17_fin_after_data_ok cfg (fstep_of cci s o) = true.
+Proof.
+  intros cfg s o H Hg. apply c17_fin_after_data_ok_step_gen; [|exact Hg]. apply c17_seg_bounds_step. exact H.
+Qed.
+
+Definition c17_fin_after_data_noerr (cfg : vconfig) (st : fstep) : bool :=
+  if c17_not_err_send (fs_result st) then c17_fin_after_data_ok cfg st else true.
+
+Theorem c17_fin_after_data_noerr_trace : forall mk cfg (s0 : vsock) ops,
+  C10_Pred.vconfig_ok cfg = true -> vsock_new cci mk cfg = Some s0 ->
+  forallb (c17_fin_after_data_noerr cfg) (ftrace cci s0 ops) = true.
+Proof.
+  intros mk cfg s0 ops Hc Hn. apply (ftrace_forallb cci (LB 0)).
+  - intros s o H. unfold c17_fin_after_data_noerr. destruct (c17_not_err_send _) eqn:E; [|reflexivity].
+    apply c17_fin_after_data_ok_step_inv; auto.
+  - apply LB_vstep_state.
+  - eapply vsock_new_LB; eauto.
+Qed.
+
+(* and while the channel is open (no VoCloseInbox in the trace) the predicate as written holds *)
+Theorem c17_fin_after_data_ok_open_trace : forall mk cfg (s0 : vsock) ops,
+  C10_Pred.vconfig_ok cfg = true -> vsock_new cci mk cfg = Some s0 -> Forall not_close_inbox ops ->
+  forallb (c17_fin_after_data_ok cfg) (ftrace cci s0 ops) = true.
+Proof.
+  intros mk cfg s0 ops Hc Hn Hops.
+  assert (H0 : LB 0 s0) by (eapply vsock_new_LB; eauto).
+  assert (C0 : v_inbox_closed s0 = false) by (eapply vsock_new_inbox_open; eauto).
+  clear Hn. revert s0 H0 C0. induction ops as [|o rest IH]; intros s H0 C0; [reflexivity|].
+  inversion Hops as [|? ? Ho Hrest]; subst.
+  rewrite ftrace_cons. cbn [forallb]. apply andb_true_intro. split.
+  - apply c17_fin_after_data_ok_step_inv; auto.
+  - destruct (poll_finished _); [reflexivity|]. apply IH; [exact Hrest| |].
+    + apply LB_vstep_state. exact H0.
+    + apply vstep_inbox_open; assumption.
+Qed.
+
+Theorem LB_vstep_expanded : forall (s : vsock) o,
+  LB 0 s -> let '(s', _, _, _) := vstep cci s o in LB 0 s'.
+Proof.
+  intros s o H. pose proof (vstep_LB cci s o H) as K. destruct (vstep cci s o) as [[[s' out] dw] sw]. exact K.
+Qed.
+
+Theorem c17_fin_after_data_ok_vstep_inv : forall cfg (s : vsock) o,
+  LB 0 s ->
+  let '(s', out, dw, sw) := vstep cci s o in
+  let st := {| fs_now := v_env_now s'; fs_pre := fp_of_vsock cci s; fs_event := fevent_of o;
+               fs_result := fresult_of out; fs_disp_woken := dw; fs_self_woken := sw;
+               fs_post := fp_of_vsock cci s' |} in
+  v_inbox_closed s = false \/ c17_not_err_send (fs_result st) = true ->
+  c17_fin_after_data_ok cfg st = true.
+Proof.
+  intros cfg s o H0. pose proof (c17_fin_after_data_ok_step_inv cfg s o H0) as H. unfold fstep_of in H.
+  destruct (vstep cci s o) as [[[s' out] dw] sw]. exact H.
+Qed.
+
 End WithCC.
 
 (* ================================================================== witnesses *)
